@@ -9,6 +9,7 @@
   result" — and a worked stream of that class (non-vacuity).
 -/
 import LccModel.Props.C10
+import LccModel.Lemmas.WriterNThreads
 
 namespace LccModel.C10
 open LccModel.Report LccModel.Writer LccModel.Saving
@@ -79,5 +80,45 @@ example : (List.range 6).all (fun i => prefixBetween (overlapDemo.take 10) (over
 example : (match sessRun .atEachLog (fun n => n) (Sess.init (fun n => n)) overlapDemo with
            | .ok s => s.saves.reverse.map (·.1)
            | .error _ => []) = [6, 8, 10, 15] := by decide +kernel
+
+/-! ### the KEY under which a thread's step is registered (`session._get_thread_id()`, `active_steps[thread_id]`)
+
+    The events carry whatever `_get_thread_id()` returns; the writer only uses it as a key.  Any key that tells the threads
+    of a result apart gives the same reports — at every point of the run, so the same saved files —; a key two overlapping
+    threads share (a thread NAME given twice: `lcc.Thread(name="worker")`) does not. -/
+
+/-- Every snapshot is independent of the keys: for a re-labelling `ρ` of the thread ids that is injective on the (result,
+    thread) pairs of the stream, the report after `k` events (what a save at that point writes) is the same, for every `k`
+    whose prefix is handled within the discipline. -/
+theorem snapshots_independent_of_injective_step_keys {ρ : Loc → Nat → Nat} {es : List Event} (hinj : TidInjOn ρ es) (k : Nat)
+    (hd : DisciplinedT (es.take k)) : fold ((es.take k).map (relabelTid ρ)) = fold (es.take k) := by
+  have hinj' : TidInjOn ρ (es.take k) := by
+    intro l t l' t' h1 h2 h
+    obtain ⟨e1, he1, hx1⟩ := List.mem_filterMap.mp h1
+    obtain ⟨e2, he2, hx2⟩ := List.mem_filterMap.mp h2
+    exact hinj l t l' t' (mem_tidLocs (List.mem_of_mem_take he1) hx1) (mem_tidLocs (List.mem_of_mem_take he2) hx2) h
+  obtain ⟨w, hw⟩ := hd
+  obtain ⟨w', hw', hr⟩ := drunT_relabelTid hinj' hw
+  rw [fold_of_drunT hw', fold_of_drunT hw, hr]
+
+/-- both workers of `overlapDemo` registered under ONE key — what a key made of the thread's name gives when the test named
+    its two `lcc.Thread`s alike -/
+def sameName : Loc → Nat → Nat := fun _ t => if t = 3 then 2 else t
+def overlapShared : List Event := overlapDemo.map (relabelTid sameName)
+
+/-- the shared key is not injective on the stream, and the stream it gives is no longer one of C07's grammar … -/
+example : decide (Grammar.WellFormedPrefix overlapShared) = false := by decide +kernel
+
+/-- … REFUTATION of the shared key: the end of the worker that finishes first ends the OTHER worker's step (`B`, at 9); the
+    file saved at the main thread's log (10 events) shows it ended at 9; the other worker's end then ends it a second time
+    (11) and `A` is never ended: the saved file is NOT a prefix of the final report. -/
+theorem shared_step_key_breaks_prefix :
+    (match fold (overlapShared.take 10) with
+     | .ok r => stepEndsOf r
+     | .error _ => []) = [("main", none), ("A", none), ("B", some 9)] ∧
+    (match fold overlapShared with
+     | .ok r => stepEndsOf r
+     | .error _ => []) = [("main", some 12), ("A", none), ("B", some 11)] ∧
+    prefixBetween (overlapShared.take 10) overlapShared = some false := by decide +kernel
 
 end LccModel.C10
